@@ -249,30 +249,4 @@ verif_harness! {
     }
 }
 
-//@ harness name=rc2_roundtrip_ed prop=C01 tier=quick bits=1088 est=100 desc="D: decrypt_block(encrypt_block(b)) == b on an arbitrary round-key state (superset of all accepted keys and effective key lengths), all blocks"
-verif_harness! {
-    name: rc2_roundtrip_ed,
-    bytes: 136,
-    unwind: 66,
-    prop: |inp| {
-        let (c, blk) = arb_state(inp);
-        let mut b = blk.into();
-        c.encrypt_block(&mut b);
-        c.decrypt_block(&mut b);
-        Some(b.0 == blk)
-    }
-}
-
-//@ harness name=rc2_roundtrip_de prop=C01 tier=quick bits=1088 est=100 desc="D: encrypt_block(decrypt_block(b)) == b on an arbitrary round-key state, all blocks"
-verif_harness! {
-    name: rc2_roundtrip_de,
-    bytes: 136,
-    unwind: 66,
-    prop: |inp| {
-        let (c, blk) = arb_state(inp);
-        let mut b = blk.into();
-        c.decrypt_block(&mut b);
-        c.encrypt_block(&mut b);
-        Some(b.0 == blk)
-    }
-}
+// Round trip (C01): see rt.rs (L+W).  The direct query dec(enc(b)) == b on an arbitrary round-key state did not finish in 900 s.
